@@ -409,6 +409,9 @@ type MVAR struct {
 // extensions to the value record format with additional fields.
 // Implementations must use the valueRecordSize field to determine the start of each record."
 func (mv *MVAR) parseValueRecords(src []byte) error {
+	if mv.valueRecordCount != 0 && mv.valueRecordSize < 8 {
+		return fmt.Errorf("invalid MVAR value record size: %d", mv.valueRecordSize)
+	}
 	expectedL := int(mv.valueRecordSize) * int(mv.valueRecordCount)
 	if L := len(src); L < expectedL {
 		return fmt.Errorf("EOF: expected length: %d, got %d", expectedL, L)
